@@ -11,6 +11,23 @@ NOTE = ("Trusted: CrossHair 0.0.110 + z3, the overlay venv, the environment stub
         "isinstance shim), the harness oracles under /verif/vf. Grammars are a fixed corpus (classes cannot be symbolic); all bounds are in evidence.assumptions.")
 
 CLAIMED = {
+    "C16": dict(
+        text="ElitismStep (list and one-shot iterator input, with duplicate individuals), sort_population / best_individual / is_better and one "
+             "generation of a ParallelStep that reserves an elitism slot run with the fitness of every individual a symbolic selector into a table of "
+             "distinct values, the direction and the elite count k symbolic: exactly k members of the input, never more copies than present, no excluded "
+             "individual strictly better than an included one; best aggregate of the next generation >= the current one (inductive step for monotone "
+             "best fitness). Every weak order with ties is a path; path trees exhausted. Bounds: population 4 (thorough 5), table of 2-3 values.",
+        design_ref="DESIGN.md section 4 (C16)",
+    ),
+    "C17": dict(
+        text="TournamentSelection and LexicaseSelection (plain and epsilon) run with symbolic fitness selectors, symbolic optimisation directions, "
+             "symbolic target and EVERY outcome of the random draws (symbolic randint under the repository's own choice/shuffle): each tournament "
+             "winner is a population member, was drawn for its tournament and is at least as fit as every participant (participants observed per "
+             "choice call); each lexicase winner is an available candidate, never returned more often than present, and survives an independent "
+             "lexicase filter for at least one of ALL case orders over the candidates still available. Path trees exhausted. Bounds: population 2-3, "
+             "tournament size 1..population+1, 1-2 (thorough 3) cases, tables of 2-3 values.",
+        design_ref="DESIGN.md section 4 (C17)",
+    ),
     "C15": dict(
         text="Engine B: the current source of ParallelStep.compute_ranges (shared by ExclusiveParallelStep) is interpreted into z3 integer/rational "
              "terms with population length and target size SYMBOLIC (1 <= target <= population <= 10^5) for every weight vector of a finite family "
